@@ -428,6 +428,18 @@ pub fn run(o: &DriveOpts, out: &mut dyn Write, tid: usize) -> Value {
             twin_alive = w.gs.get(1).map(|x| x.is_some()).unwrap_or(false);
             continue;
         }
+        if ok && matches!(call, Call::Slice { .. }) && rng.gen_bool(0.5) && w.gs.get(1).map(|x| x.is_some()).unwrap_or(false) {
+            // use the slice: which of its vertices die together shows in what is alive after put + data
+            for _ in 0..rng.gen_range(1..4) {
+                let pres = w.g(1).keys().unwrap_or_default();
+                let Some(v) = pres.choose(&mut rng).copied() else { break };
+                ok = ok && rec.call(&mut w, HCall { h: 1, call: Call::Put { v, d: datas.choose(&mut rng).unwrap().clone() } });
+                if rng.gen_bool(0.7) {
+                    ok = ok && rec.call(&mut w, HCall { h: 1, call: Call::Data { v } });
+                }
+            }
+            continue;
+        }
         if ok && mirrored {
             rec.mirror_next = true;
             ok = rec.call(&mut w, HCall { h: 1, call: call.clone() });
